@@ -1212,8 +1212,12 @@ def concretize_int(e, cap=64):
         m = ex._ensure_model()
         if m is None:
             raise Unsupported("cannot enumerate values: solver unknown")
-        v = m.eval(e, model_completion=True)
+        v = z3.simplify(m.eval(e, model_completion=True))
         if not z3.is_int_value(v):
+            # e.g. ToInt of an algebraic number: fall back to trying small values in turn
+            for k in list(range(0, cap + 1)) + list(range(-1, -cap - 1, -1)):
+                if ex.decide(e == k):
+                    return k
             raise Unsupported("cannot enumerate values: non-numeral model value")
         k = v.as_long()
         if ex.decide(e == k):
